@@ -4536,13 +4536,20 @@ func (r *RoutingPolicy) AddPolicy(x *Policy, refer bool) (err error) {
 	name := x.Name
 	y, ok := pMap[name]
 	if refer {
-		err = x.FillUp(sMap)
+		// a policy that refers to an unknown statement is refused as a whole
+		if err = x.FillUp(sMap); err != nil {
+			return err
+		}
 	} else {
+		// check every name before defining any statement: a refused
+		// request must not leave some of its statements behind
 		for _, st := range x.Statements {
 			if _, ok := sMap[st.Name]; ok {
 				err = fmt.Errorf("statement %s already defined", st.Name)
 				return err
 			}
+		}
+		for _, st := range x.Statements {
 			sMap[st.Name] = st
 		}
 	}
